@@ -31,6 +31,11 @@ type c11Params struct {
 	ServerCap int   `json:"server_cap,omitempty"`
 	Servers   int   `json:"servers,omitempty"`
 	Visits    []int `json:"visits,omitempty"`
+	// Par > 1: the visits run Par at a time, concurrently, through the same client cache (handshakes that hold a
+	// session while others store, evict or delete). Ruin marks visits whose server never answers (tlcp): they
+	// fail - and delete the session they offered - while the others are in flight.
+	Par  int    `json:"par,omitempty"`
+	Ruin []bool `json:"ruin,omitempty"`
 }
 
 type c11Op struct {
@@ -42,7 +47,7 @@ type c11Op struct {
 func (c11) ID() string    { return "C11" }
 func (c11) Level() string { return "exploration" }
 func (c11) Rule() string {
-	return "three layers, all seeded. seq: store / delete / lookup / lookup-most-recent sequences over <= 5 keys with capacities 1..4 (and larger), the same session object sometimes stored under two keys (as the client does), compared with a reference LRU after every operation: result, size <= capacity, and - through the hook - that no session still reachable under some key had its master secret changed. conc: 3-4 tasks issue operations on one cache under the vs kernel (pre-emption at the cache mutex), the history stamped with kernel sequence numbers is checked with porcupine against the same model; race build. conn: histories of honest connections between one client and 1-3 servers through client and server caches of capacity 1..3: every connection must succeed. distinct = distinct operation sequences / histories; non-trivial = an eviction or a deletion happened"
+	return "three layers, all seeded. seq: store / delete / lookup / lookup-most-recent sequences over <= 5 keys with capacities 1..4 (and larger), the same session object sometimes stored under two keys (as the client does), compared with a reference LRU after every operation: result, size <= capacity, and - through the hook - that no session still reachable under some key had its master secret changed. conc: 3-4 tasks issue operations on one cache under the vs kernel (pre-emption at the cache mutex), the history stamped with kernel sequence numbers is checked with porcupine against the same model; race build. conn: histories of honest connections between one client and 1-3 servers through client and server caches of capacity 1..3: every connection must succeed - also when 2-3 of them run concurrently through the same client cache while others fail and delete the session they offered. Capacities below 1 mean 64. distinct = distinct operation sequences / histories; non-trivial = an eviction or a deletion happened"
 }
 func (c11) Components() (real, stub []string) {
 	return []string{"lruSessionCache of tlcp and dtlcp", "tlcp/dtlcp client+server (conn mode)", "Go race detector (conc mode)"},
@@ -77,6 +82,9 @@ func drawC11(src *vs.Src) *c11Params {
 		if src.Bool(1, 8) {
 			p.Cap = 5 + src.Intn(60)
 		}
+		if src.Bool(1, 12) {
+			p.Cap = -src.Intn(3) // 0, -1, -2: "smaller than 1 means the default capacity of 64"
+		}
 		n := 2 + src.Intn(14)
 		if p.Mode == "conc" {
 			p.Tasks = 3 + src.Intn(2)
@@ -109,6 +117,22 @@ func drawC11(src *vs.Src) *c11Params {
 		n := 2 + src.Intn(5)
 		for i := 0; i < n; i++ {
 			p.Visits = append(p.Visits, src.Intn(p.Servers))
+		}
+		if src.Bool(1, 2) {
+			p.Par = 2 + src.Intn(2)
+			if src.Bool(1, 2) {
+				p.ClientCap = 1 + src.Intn(16)
+			}
+			for i := 0; i < n; i++ {
+				p.Visits = append(p.Visits, src.Intn(p.Servers))
+				p.Ruin = append(p.Ruin, false)
+			}
+			for i := range p.Visits {
+				if i >= len(p.Ruin) {
+					p.Ruin = append(p.Ruin, false)
+				}
+				p.Ruin[i] = i > 0 && p.Stack == TLCP && src.Bool(1, 4)
+			}
 		}
 	}
 	return p
@@ -184,7 +208,7 @@ func (m *lruModel) String() string {
 }
 
 func parseLRU(s string, cap int) *lruModel {
-	m := &lruModel{cap: cap, vals: map[int]int{}}
+	m := &lruModel{cap: c11EffCap(cap), vals: map[int]int{}}
 	for _, kv := range strings.Split(s, ",") {
 		var k, v int
 		if _, err := fmt.Sscanf(kv, "%d=%d", &k, &v); err == nil {
@@ -212,6 +236,14 @@ func newC11Cache(stack string, cap int) *c11Cache {
 		c.d = dtlcp.NewLRUSessionCache(cap)
 	}
 	return c
+}
+
+// c11EffCap: the documented meaning of the capacity argument.
+func c11EffCap(cap int) int {
+	if cap < 1 {
+		return 64
+	}
+	return cap
 }
 
 func c11Master(v int) []byte { return bytes.Repeat([]byte{byte(v), byte(v >> 8), 0xC1, 0x1C}, 12) }
@@ -308,9 +340,15 @@ func (c11) Run(c *Case, src *vs.Src) *Result {
 
 func c11Seq(p *c11Params, r *Result) {
 	sigp := "C11 seq"
+	defer func() {
+		// the cache is driven directly here (no kernel task): a panic inside it is a finding, not a crash of the check
+		if e := recover(); e != nil {
+			r.Violate("panic", sigp+" panic", "the cache panicked (capacity argument %d): %v; sequence %+v", p.Cap, e, p.Ops)
+		}
+	}()
 	cache := newC11Cache(p.Stack, p.Cap)
 	cache.prepare(p.Ops)
-	m := &lruModel{cap: p.Cap, vals: map[int]int{}}
+	m := &lruModel{cap: c11EffCap(p.Cap), vals: map[int]int{}}
 	stored := map[int]bool{}
 	for i, op := range p.Ops {
 		if op.Op == "put" {
@@ -447,6 +485,10 @@ func c11Conn(c *Case, src *vs.Src, p *c11Params, r *Result) {
 		ts[i], ds[i] = tlcp.NewLRUSessionCache(p.ServerCap), dtlcp.NewLRUSessionCache(p.ServerCap)
 	}
 	resumed := 0
+	if p.Par > 1 {
+		c11ParConn(c, src, p, r, sigp, tc, dc, ts, ds)
+		return
+	}
 	for n, srv := range p.Visits {
 		w := NewWorld(c.Seed+uint64(n), src)
 		w.K.MaxElapsed = 120 * time.Second
@@ -475,4 +517,70 @@ func c11Conn(c *Case, src *vs.Src, p *c11Params, r *Result) {
 	r.Stat("connections", len(p.Visits))
 	r.Stat("resumed", resumed)
 	r.Trivial = len(p.Visits) < 2
+}
+
+// c11ParConn runs the visits Par at a time, concurrently: every connection that is not ruined must succeed.
+func c11ParConn(c *Case, src *vs.Src, p *c11Params, r *Result, sigp string, tc tlcp.SessionCache, dc dtlcp.SessionCache, ts []tlcp.SessionCache, ds []dtlcp.SessionCache) {
+	sigp += " parallel"
+	resumed, done := 0, 0
+	for base := 0; base < len(p.Visits); base += p.Par {
+		w := NewWorld(c.Seed+uint64(base), src)
+		w.K.MaxElapsed = 120 * time.Second
+		end := base + p.Par
+		if end > len(p.Visits) || base == 0 {
+			end = minInt(len(p.Visits), base+p.Par)
+		}
+		if base == 0 {
+			end = 1 // the first connection alone: it creates the session the next ones hold
+		}
+		type one struct {
+			out  *HSOut
+			pair *Pair
+			ruin bool
+			srv  int
+		}
+		var round []*one
+		for n := base; n < end; n++ {
+			srv := p.Visits[n]
+			env := NewEnv(w)
+			env.TCaches["c"], env.DCaches["c"] = tc, dc
+			env.TCaches["s"], env.DCaches["s"] = ts[srv], ds[srv]
+			cc := &EPConf{Suites: []uint16{ECC_GCM}, ServerName: "server.test", Cache: "c"}
+			sc := &EPConf{Suites: []uint16{ECC_GCM}, Certs: []string{"server_sig", "server_enc"}, Cache: "s"}
+			pair := NewPair(p.Stack, env, cc, sc, fmt.Sprintf("c%d", n), fmt.Sprintf("s%d", n), simnet.Addr(fmt.Sprintf("client:%d", 1+n)), simnet.Addr(fmt.Sprintf("server%d:443", srv)))
+			o := &one{out: &HSOut{}, pair: pair, srv: srv, ruin: n < len(p.Ruin) && p.Ruin[n] && pair.Pipe != nil}
+			if o.ruin {
+				pair.Pipe.CutAfter(simnet.DirS2C, int64(7+src.Intn(40)))
+				SpawnHandshakeEcho(w, pair, EchoOpts{}, o.out, fmt.Sprint(n))
+			} else {
+				SpawnHandshakeEcho(w, pair, EchoOpts{Echo: true, C2S: []byte("ping"), S2C: []byte("pong")}, o.out, fmt.Sprint(n))
+			}
+			round = append(round, o)
+		}
+		if base == 0 {
+			base = 1 - p.Par // next round starts at visit 1
+		}
+		reason, unf := w.Run()
+		w.Finish(r, sigp)
+		for i, o := range round {
+			if o.ruin {
+				continue
+			}
+			if reason != vs.Done || o.out.CErr != nil || o.out.SErr != nil {
+				r.Violate("honest-connection-failed", fmt.Sprintf("%s ccap=%d connection-failed", sigp, minInt(p.ClientCap, 2)), "an honest connection (to server %d, one of %d running concurrently; history %v, ruined %v) failed with client cache capacity %d: run %s, unfinished %v, client %v, server %v", o.srv, len(round), p.Visits, p.Ruin, p.ClientCap, reason, unf, o.out.CErr, o.out.SErr)
+				return
+			}
+			o.out.Collect(o.pair)
+			if d := o.out.CheckEcho(); d != "" {
+				r.Violate("echo", sigp+" echo", "connection %d of a round: %s", i, d)
+			}
+			if o.out.CCS.Resumed {
+				resumed++
+			}
+			done++
+		}
+	}
+	r.Stat("parallel_connections", done)
+	r.Stat("resumed", resumed)
+	r.Trivial = done < 2
 }
